@@ -479,11 +479,14 @@ def signalRound (s : Fw σ) : Fw σ :=
       | none => s
       | some x => (transition ρ FUEL x .signal s).1
 
+/-- the start of `trigger_events`: clear the slots and the counter-zero flags, take the new time -/
+def Fw.callStart (s : Fw σ) (t : Int) : Fw σ :=
+  { s with actions := s.actions.map (fun _ => none), zeroedA := false, zeroedB := false,
+           g := { s.g with now := t } }
+
 /-- `Framework::trigger_events`; the returned actions are `actionsOut` of the result -/
 def triggerEvents (es : List TEvent) (t : Int) (s : Fw σ) : Fw σ :=
-  let s := { s with actions := s.actions.map (fun _ => none), zeroedA := false, zeroedB := false, g := { s.g with now := t } }
-  let s := es.foldl (fun s e => processEvent ρ e s) s
-  signalRound ρ s
+  signalRound ρ (es.foldl (fun s e => processEvent ρ e s) (s.callStart t))
 
 end
 
@@ -493,29 +496,35 @@ def Fw.actionsOut {σ} (s : Fw σ) : List TAction := s.actions.filterMap id
 section
 variable {σ : Type} (ρ : Oracle σ)
 
+/-- the framework record built by `Framework::new` before the initial limits are sampled -/
+def Fw.init0 (machines : List Machine) (fp fb : F64) (t0 : Int) (rng : σ) : Fw σ :=
+  { machines := machines,
+    rt := machines.map fun m =>
+      ({ currentState := 0, stateLimit := 0, counterA := 0, counterB := 0,
+         acct := { paddingSent := 0, normalSent := 0, blockingDur := 0, machineStart := t0,
+                   allowedBlocked := m.allowedBlockedMicrosec * 1000 } } : Runtime),
+    actions := machines.map (fun _ => none),
+    g := { now := t0, maxPaddingFrac := fp, maxBlockingFrac := fb, normalSent := 0, paddingSent := 0,
+           blockingDur := 0, blockingStarted := t0, blockingActive := false, start := t0 },
+    signalPending := none, zeroedA := false, zeroedB := false, rng := rng, fault := none, log := [] }
+
+/-- sampling the limit of state 0 of machine `mi` at construction -/
+def initLimit (s : Fw σ) (mi : Nat) : Fw σ :=
+  match s.machines[mi]? with
+  | none => s.withFault .oob
+  | some m =>
+    match m.states[0]? with
+    | none => s.withFault .oob
+    | some st =>
+      match st.action with
+      | none => s
+      | some a =>
+        let (l, s) := sampleLimit ρ a s
+        s.modRt mi (fun r => { r with stateLimit := l })
+
 /-- `Framework::new` after validation succeeded (validation is modelled in `Validate.lean`) -/
 def Fw.init (machines : List Machine) (fp fb : F64) (t0 : Int) (rng : σ) : Fw σ :=
-  let rt := machines.map fun m =>
-    ({ currentState := 0, stateLimit := 0, counterA := 0, counterB := 0,
-       acct := { paddingSent := 0, normalSent := 0, blockingDur := 0, machineStart := t0,
-                 allowedBlocked := m.allowedBlockedMicrosec * 1000 } } : Runtime)
-  let s : Fw σ :=
-    { machines := machines, rt := rt, actions := machines.map (fun _ => none),
-      g := { now := t0, maxPaddingFrac := fp, maxBlockingFrac := fb, normalSent := 0, paddingSent := 0,
-             blockingDur := 0, blockingStarted := t0, blockingActive := false, start := t0 },
-      signalPending := none, zeroedA := false, zeroedB := false, rng := rng, fault := none, log := [] }
-  (List.range machines.length).foldl (fun s mi =>
-    match s.machines[mi]? with
-    | none => s.withFault .oob
-    | some m =>
-      match m.states[0]? with
-      | none => s.withFault .oob
-      | some st =>
-        match st.action with
-        | none => s
-        | some a =>
-          let (l, s) := sampleLimit ρ a s
-          s.modRt mi (fun r => { r with stateLimit := l })) s
+  (List.range machines.length).foldl (initLimit ρ) (Fw.init0 machines fp fb t0 rng)
 
 end
 end Mb
